@@ -1,4 +1,5 @@
 import Postcard.Props.C01
+import Postcard.Props.C01EnumAt
 import Postcard.Props.EndToEnd
 -- property theorems of C01: every one must depend only on propext / Classical.choice / Quot.sound
 #print axioms Postcard.roundtrip
@@ -17,3 +18,6 @@ import Postcard.Props.EndToEnd
 #print axioms Postcard.utf8Next_encode
 #print axioms Postcard.ofLeBytes_leBytes
 #print axioms Postcard.to_slice_then_from_bytes
+#print axioms Postcard.decVariant_skip
+#print axioms Postcard.roundtrip_enumAt
+#print axioms Postcard.decEnumAt_eq_dec
